@@ -147,7 +147,7 @@ PROPS = {
         'claim': '72 Rust types built from the serde data model (all integer widths, f32/f64, bool, char, String, unit, Option, Vec, tuples 1-4, BTreeMap/HashMap with String/every integer width/char/bool/unit-enum keys, '
                  'named/tuple/newtype/unit structs, enums with unit/newtype/tuple/struct variants, nesting depth <= 4) are generated with boundary numbers, multi-byte text and empty/50-entry collections; each instance must '
                  'deserialize back to itself from Value and from &Value (floats by bits), print exactly what a second, independent Serializer into the model value type predicts (integers exact, maps sorted), identically through '
-                 'Context::insert, insert_value(converted) and from_serialize; maps with float/tuple/struct/unit/none/bytes/seq/map keys must be refused. Context::from_serialize of top-level maps with integer/bool/char/string keys must equal inserting each entry under the key's text, and a top level that is no map or struct must be refused.',
+                 'Context::insert, insert_value(converted) and from_serialize; maps with float/tuple/struct/unit/none/bytes/seq/map keys must be refused. Context::from_serialize of top-level maps with integer/bool/char/string keys must equal inserting each entry under the text of the key, and a top level that is no map or struct must be refused.',
         'note': 'Option<T> is only generated for payloads that cannot themselves serialise to none (the collapse the property excludes); the model serializer shares only the serde traits with the engine',
         'rule': "one evaluation = one conversion, read-back or render; a cell = (type, by-value/by-reference) for round trips and (bad key kind, top/nested) for refusals",
         'must_observe': ['roundtrips_ok', 'print_comparisons', 'unrepresentable_keys_refused', 'top_level_maps_compared', 'non_map_top_levels_refused'],
